@@ -24,6 +24,10 @@
  *        tls_read on the same context: "rv=<handshake>,<io> ## ...")
  *
  *   hs <k=v>...      one complete session over an AF_UNIX socketpair, see do_hs().
+ *                    cam/sam: CA through 0 ca_file, 1 ca_mem, 2 ca_path (hashed directory).  kpm (0 memory, 1 file) is
+ *                    the default source of every keypair half; optional scs sks ccs cks override it per item
+ *                    (server cert, server key, client cert, client key), so a certificate can come from memory
+ *                    and its key from a file.  The source never matters for the outcome.
  *                    Optional rc=<1|2> + a<field>=..: the SAME client and server contexts are first configured with
  *                    another configuration A (acca asca asvc avc avn avt asvt acp asp aciph adepth akp), rc=2
  *                    also attempts a session under A, closes it and calls tls_reset; then they are configured with
@@ -57,6 +61,7 @@
 #include <errno.h>
 #include <limits.h>
 #include <sys/socket.h>
+#include <sys/stat.h>
 
 #include "hcommon.h"
 
@@ -620,7 +625,7 @@ static int g_debug;
 static char g_tmpdir[256];
 static long g_cutread = -99;
 static long st_sessions, st_est, st_steps, st_wants, st_calls, st_bytes, st_cutread0, st_cutreaderr, st_partial;
-static long st_noise, st_noise_dirty, st_refused, st_refused_calls, st_presessions, st_reconfigured;
+static long st_noise, st_noise_dirty, st_refused, st_refused_calls, st_presessions, st_reconfigured, st_mixed_keypairs;
 
 enum { PH_HS, PH_REFUSED, PH_PING1, PH_PING2, PH_DATA, PH_DRAIN, PH_CLOSE, PH_CUTREAD, PH_DONE, PH_FAILED };
 
@@ -912,6 +917,7 @@ static void do_noise(unsigned kind)
 
 struct hs_par {
 	int ciph, cp, sp, vc, vn, vt, svc, svt, cca, sca, cam, sam, kpm, first, cut, bias, burst, noise;
+	int src[4], asrc[4];		/* server cert, server key, client cert, client key: 0 memory, 1 file */
 	/* reconfigure family: rc=1 the same contexts are configured with A, then with B (= the fields above);
 	 * rc=2 configured with A, a session attempt is made and closed, tls_reset, configured with B */
 	int rc, aciph, acp, asp, avc, avn, avt, asvc, asvt, acca, asca, adepth, akp, depth;
@@ -939,24 +945,43 @@ static int set_ca(struct tls_config *cfg, int ca, int mem)
 			rv = tls_config_set_ca_file(cfg, path);
 		return rv;
 	}
+	if (mem == 2) {
+		/* hashed directory (<subject hash>.0) holding just this CA; no ca_file at all */
+		char dir[512], fn[600];
+		FILE *f;
+		snprintf(dir, sizeof dir, "%s/capath%d", g_tmpdir, ca);
+		mkdir(dir, 0700);
+		snprintf(fn, sizeof fn, "%s/%08lx.0", dir, X509_subject_name_hash(g_cacert[ca]));
+		if (!(f = fopen(fn, "w"))) return -1;
+		PEM_write_X509(f, g_cacert[ca]);
+		fclose(f);
+		if (tls_config_set_ca_file(cfg, NULL) != 0) return -1;
+		return tls_config_set_ca_path(cfg, dir);
+	}
 	return tls_config_set_ca_file(cfg, path);
 }
 
-/* keypair either in memory or (mode 1) through temporary files */
-static int set_keypair(struct tls_config *cfg, struct certent *ce, int via_file, int slot)
+/* each half of a keypair either in memory (0) or through a temporary file (1), independently */
+static int set_keypair(struct tls_config *cfg, struct certent *ce, int cert_file, int key_file, int slot)
 {
-	if (via_file) {
-		char cp[512], kp[512];
-		FILE *f;
-		snprintf(cp, sizeof cp, "%s/c%d.crt", g_tmpdir, slot);
-		snprintf(kp, sizeof kp, "%s/c%d.key", g_tmpdir, slot);
-		if (!(f = fopen(cp, "w"))) return -1;
+	char path[512];
+	FILE *f;
+	if (cert_file) {
+		snprintf(path, sizeof path, "%s/c%d.crt", g_tmpdir, slot);
+		if (!(f = fopen(path, "w"))) return -1;
 		fwrite(ce->cert.p, 1, ce->cert.n, f); fclose(f);
-		if (!(f = fopen(kp, "w"))) return -1;
+		if (tls_config_set_cert_file(cfg, path) != 0) return -1;
+	} else if (tls_config_set_cert_mem(cfg, (uint8_t *)ce->cert.p, ce->cert.n) != 0)
+		return -1;
+	if (key_file) {
+		snprintf(path, sizeof path, "%s/c%d.key", g_tmpdir, slot);
+		if (!(f = fopen(path, "w"))) return -1;
 		fwrite(ce->key.p, 1, ce->key.n, f); fclose(f);
-		return tls_config_set_keypair_file(cfg, cp, kp);
-	}
-	return tls_config_set_keypair_mem(cfg, (uint8_t *)ce->cert.p, ce->cert.n, (uint8_t *)ce->key.p, ce->key.n);
+		if (tls_config_set_key_file(cfg, path) != 0) return -1;
+	} else if (tls_config_set_key_mem(cfg, (uint8_t *)ce->key.p, ce->key.n) != 0)
+		return -1;
+	if (cert_file != key_file) st_mixed_keypairs++;
+	return 0;
 }
 
 static const char *ciph_str(int k)
@@ -966,7 +991,7 @@ static const char *ciph_str(int k)
 
 /* one client and one server tls_config from the given settings; returns 0 when every setter succeeded */
 static int build_cfgs(struct tls_config **cc, struct tls_config **sc, int ciph, int cp, int sp, int vc, int vn,
-		      int vt, int svc, int svt, int cca, int sca, int cam, int sam, int kpm, int depth,
+		      int vt, int svc, int svt, int cca, int sca, int cam, int sam, const int *src, int depth,
 		      struct certent *sce, struct certent *cce, int slot)
 {
 	*cc = tls_config_new(); *sc = tls_config_new();
@@ -985,8 +1010,8 @@ static int build_cfgs(struct tls_config **cc, struct tls_config **sc, int ciph, 
 	if (svc == 1) tls_config_verify_client(*sc);
 	if (svc == 2) tls_config_verify_client_optional(*sc);
 	if (depth >= 0) { tls_config_set_verify_depth(*cc, depth); tls_config_set_verify_depth(*sc, depth); }
-	if (set_keypair(*sc, sce, kpm, slot) != 0) return -1;
-	if (cce && set_keypair(*cc, cce, kpm, slot + 1) != 0) return -1;
+	if (set_keypair(*sc, sce, src[0], src[1], slot) != 0) return -1;
+	if (cce && set_keypair(*cc, cce, src[2], src[3], slot + 1) != 0) return -1;
 	return 0;
 }
 
@@ -1036,12 +1061,15 @@ static void do_hs(char **w, int n)
 	GETI("vc", P.vc, 0, 1); GETI("vn", P.vn, 0, 1); GETI("vt", P.vt, 0, 1);
 	GETI("svc", P.svc, 0, 2); GETI("svt", P.svt, 0, 1);
 	GETI("cca", P.cca, 1, 2); GETI("sca", P.sca, 1, 2);
-	GETI("cam", P.cam, 0, 1); GETI("sam", P.sam, 0, 1); GETI("kpm", P.kpm, 0, 1);
+	GETI("cam", P.cam, 0, 2); GETI("sam", P.sam, 0, 2); GETI("kpm", P.kpm, 0, 1);
 	GETI("first", P.first, 0, 1); GETI("cut", P.cut, 0, 4);
 	GETI("bias", P.bias, 1, 255); GETI("burst", P.burst, 1, 64);
 	GETI("buf", P.buf, 0, 1 << 20); GETI("n", P.n, 0, 1 << 26); GETI("chunk", P.chunk, 1, 65536);
 #undef GETI
 #define OPTI(k, dst, lo, hi, dflt) do { dst = dflt; if (kv_get(w + 1, n - 1, k, &v)) { if (!parse_int(v, &lv) || lv < (lo) || lv > (hi)) goto bad; dst = lv; } } while (0)
+	OPTI("scs", P.src[0], 0, 1, P.kpm); OPTI("sks", P.src[1], 0, 1, P.kpm);
+	OPTI("ccs", P.src[2], 0, 1, P.kpm); OPTI("cks", P.src[3], 0, 1, P.kpm);
+	for (i = 0; i < 4; i++) P.asrc[i] = (i & 1) ? P.src[i] : !P.src[i];	/* A: other certificate source, same key source */
 	OPTI("rc", P.rc, 0, 2, 0); OPTI("depth", P.depth, -1, 100, -1);
 	OPTI("aciph", P.aciph, 0, 2, 0); OPTI("acp", P.acp, 0, 30, 24); OPTI("asp", P.asp, 0, 30, 24);
 	OPTI("avc", P.avc, 0, 1, 1); OPTI("avn", P.avn, 0, 1, 1); OPTI("avt", P.avt, 0, 1, 1);
@@ -1068,7 +1096,7 @@ static void do_hs(char **w, int n)
 	/* ---- configs */
 	stage = "config";
 	if (build_cfgs(&C.cfg, &S.cfg, P.ciph, P.cp, P.sp, P.vc, P.vn, P.vt, P.svc, P.svt, P.cca, P.sca,
-		       P.cam, P.sam, P.kpm, P.depth, sce, cce, 0) != 0) goto setup_fail;
+		       P.cam, P.sam, P.src, P.depth, sce, cce, 0) != 0) goto setup_fail;
 
 	stage = "ctx";
 	C.ctx = tls_client(); S.base = tls_server();
@@ -1083,7 +1111,7 @@ static void do_hs(char **w, int n)
 			if (!asce || !acce) goto setup_fail;
 		}
 		if (build_cfgs(&cfgA_c, &cfgA_s, P.aciph, P.acp, P.asp, P.avc, P.avn, P.avt, P.asvc, P.asvt,
-			       P.acca, P.asca, !P.cam, !P.sam, P.kpm, P.adepth, asce, acce, 2) != 0) goto setup_fail;
+			       P.acca, P.asca, (P.cam + 1) % 3, (P.sam + 2) % 3, P.asrc, P.adepth, asce, acce, 2) != 0) goto setup_fail;
 		stage = "configure-A";
 		if (tls_configure(C.ctx, cfgA_c) != 0) goto setup_fail;
 		if (tls_configure(S.base, cfgA_s) != 0) goto setup_fail;
@@ -1279,9 +1307,10 @@ int main(int argc, char **argv)
 				"\"cut_read_0\": %ld, \"cut_read_err\": %ld, \"certs_generated\": %d, "
 				"\"noise_calls\": %ld, \"noise_calls_leaving_error_queue_dirty\": %ld, "
 				"\"refused_endpoints\": %ld, \"io_calls_after_refusal\": %ld, "
-				"\"sessions_after_reconfigure\": %ld, \"pre_sessions_then_reset\": %ld}\n",
+				"\"sessions_after_reconfigure\": %ld, \"pre_sessions_then_reset\": %ld, "
+				"\"keypairs_cert_and_key_from_different_sources\": %ld}\n",
 				st_sessions, st_est, st_steps, st_wants, st_calls, st_bytes, st_partial,
-				st_cutread0, st_cutreaderr, g_ncerts, st_noise, st_noise_dirty, st_refused, st_refused_calls, st_reconfigured, st_presessions);
+				st_cutread0, st_cutreaderr, g_ncerts, st_noise, st_noise_dirty, st_refused, st_refused_calls, st_reconfigured, st_presessions, st_mixed_keypairs);
 			fclose(f);
 		}
 	}
